@@ -30,6 +30,7 @@ def guard_hyps(idx, fi, node):
     """hypotheses that hold at `node` (a Return or expression statement): enclosing positive if-branches,
     asserts that precede it at function level, and the rule's cond"""
     hyp = set()
+    node = getattr(node, "_origin", node)  # df.effective_return stands for the original Return statement
     child = node
     p = getattr(node, "_parent", None)
     while p is not None and p is not fi.node:
